@@ -356,6 +356,7 @@ def vec(ra, dec):
 def oracle_sphere(fn, rng, n=400):
     """property-level oracle on the real functions at random points; returns (bad, cls, detail)"""
     at = loader.real('angle_tools')
+    pairs, scalars = [], []
     if fn == 'gcd':
         # exactly antipodal and exactly coincident pairs at many declinations (the sum under the square root rounds to 1 + ulp / 0)
         for k in range(600):
@@ -372,6 +373,8 @@ def oracle_sphere(fn, rng, n=400):
             dec1n = max(-89.0, min(89.0, dec1))
             ra2, dec2 = (ra1 + 180.0 + off * math.sin(ang) / max(0.02, math.cos(math.radians(dec1n)))) % 360.0, -dec1n + off * math.cos(ang)
             gn = float(at.gcd(ra1, dec1n, ra2, dec2))
+            pairs += [(ra1, dec1, (ra1 + 180.0) % 360.0, -dec1), (ra1, dec1, ra1, dec1), (ra1, dec1n, ra2, dec2)]
+            scalars += [ga, g0, gn]
             p, q = vec(ra1, dec1n), vec(ra2, dec2)
             cr = (p[1] * q[2] - p[2] * q[1], p[2] * q[0] - p[0] * q[2], p[0] * q[1] - p[1] * q[0])
             wantn = math.degrees(math.atan2(math.sqrt(sum(x * x for x in cr)), sum(a * b for a, b in zip(p, q))))
@@ -387,6 +390,8 @@ def oracle_sphere(fn, rng, n=400):
             ra2, dec2 = ra1 + sep * math.sin(ang) / max(0.05, math.cos(math.radians(dec1))), dec1 + sep * math.cos(ang)
         if fn == 'gcd':
             g = float(at.gcd(ra1, dec1, ra2, dec2))
+            pairs.append((ra1, dec1, ra2, dec2))
+            scalars.append(g)
             p, q = vec(ra1, dec1), vec(ra2, dec2)
             cr = (p[1] * q[2] - p[2] * q[1], p[2] * q[0] - p[0] * q[2], p[0] * q[1] - p[1] * q[0])
             want = math.degrees(math.atan2(math.sqrt(sum(x * x for x in cr)), sum(a * b for a, b in zip(p, q))))
@@ -413,6 +418,20 @@ def oracle_sphere(fn, rng, n=400):
             b = math.degrees(math.atan2(sum(x * y for x, y in zip(q, east)), sum(x * y for x, y in zip(q, north))))
             if abs(d - r) > 1e-6 or abs(((b - t + 180) % 360) - 180) > 1e-5:
                 return True, 'distance-bearing', 'translate(%r,%r,%r,%r)=(%r,%r): distance %r bearing %r' % (ra1, dec1, r, t, ra3, dec3, d, b)
+    if fn == 'gcd' and pairs:
+        # the same pairs handed over as arrays, and one point against arrays: element for element the scalar answers
+        import numpy as real_np
+        A = real_np.array(pairs, dtype=float)
+        gv = real_np.asarray(at.gcd(A[:, 0], A[:, 1], A[:, 2], A[:, 3]), dtype=float)
+        k = int(real_np.argmax(real_np.abs(gv - real_np.array(scalars)))) if gv.shape == (len(pairs),) else 0
+        if gv.shape != (len(pairs),) or abs(gv[k] - scalars[k]) > 1e-11:
+            return True, 'array-arguments', 'gcd with array arguments: element %d (%r) is %r, the scalar call gives %r' % (k, pairs[k], gv[k] if gv.shape == (len(pairs),) else gv.shape, scalars[k])
+        ra0, dec0 = pairs[-1][0], pairs[-1][1]
+        gm = real_np.asarray(at.gcd(ra0, dec0, A[:, 2], A[:, 3]), dtype=float)
+        for k in list(range(0, len(pairs), 37)) + [len(pairs) - 1]:
+            gk = float(at.gcd(ra0, dec0, pairs[k][2], pairs[k][3]))
+            if abs(gm[k] - gk) > 1e-11:
+                return True, 'array-arguments', 'gcd of one point against arrays: element %d is %r, the scalar call gives %r' % (k, gm[k], gk)
     return False, None, None
 
 
